@@ -8,6 +8,7 @@ import (
 	"math/rand/v2"
 	"reflect"
 	"runtime"
+	"strconv"
 	"strings"
 	"sync"
 	"sync/atomic"
@@ -233,6 +234,63 @@ func v1Exec(c *v1Case) {
 		b1, e1 = jsonv1.MarshalIndent(v.Interface(), ">", "  ")
 		b2, e2 = stdjson.MarshalIndent(v.Interface(), ">", "  ")
 		step("MarshalIndent", res(e1 == nil, b1), res(e2 == nil, b2))
+	case "unmarshal-folded":
+		// member names that equal a field name only under Unicode simple folding: the Kelvin
+		// sign folds to k, the long s to s; '_' and '-' do not fold away in the original
+		type S struct {
+			Kind  int
+			Size  string
+			Mask  []int
+			KS    map[string]int
+			Ask_s int `json:"ask_s"`
+		}
+		variants := map[rune][]string{'k': {"k", "K", "\u212a"}, 's': {"s", "S", "\u017f"}}
+		names := []string{"Kind", "Size", "Mask", "KS", "ask_s"}
+		vals := []string{"1", `"x"`, "[1,2]", `{"a":1}`, "5"}
+		var sb strings.Builder
+		sb.WriteByte('{')
+		for i, k := 0, 1+r.IntN(4); i < k; i++ {
+			if i > 0 {
+				sb.WriteByte(',')
+			}
+			j := r.IntN(len(names))
+			var nm strings.Builder
+			for _, ch := range names[j] {
+				lower := ch | 0x20
+				if vs, ok := variants[lower]; ok && ch < 0x80 {
+					nm.WriteString(vs[r.IntN(len(vs))])
+				} else if r.IntN(3) == 0 && ch != '_' {
+					nm.WriteRune(ch ^ 0x20)
+				} else {
+					nm.WriteRune(ch)
+				}
+			}
+			if r.IntN(6) == 0 {
+				nm.WriteString([]string{"_", "-", "\u212a"}[r.IntN(3)])
+			}
+			sb.WriteString(strconv.Quote(nm.String()) + ":" + vals[j])
+		}
+		sb.WriteByte('}')
+		in := []byte(sb.String())
+		c.Input = ints(in)
+		c.Valid = stdjson.Valid(in)
+		c.Type = "struct{Kind int; Size string; Mask []int; KS map[string]int; Ask_s int `json:\"ask_s\"`}"
+		var t1, t2 S
+		d1, d2 := jsonv1.NewDecoder(bytes.NewReader(in)), stdjson.NewDecoder(bytes.NewReader(in))
+		if r.IntN(2) == 0 {
+			d1.DisallowUnknownFields()
+			d2.DisallowUnknownFields()
+			step("DisallowUnknownFields", res(true, nil), res(true, nil))
+		}
+		e1, e2 := d1.Decode(&t1), d2.Decode(&t2)
+		r1, r2 := []byte{}, []byte{}
+		if e1 == nil {
+			r1 = render2(&t1)
+		}
+		if e2 == nil {
+			r2 = render2(&t2)
+		}
+		step("Decode", res(e1 == nil, r1), res(e2 == nil, r2))
 	case "unmarshal":
 		td := v1Type(r)
 		t := buildType(td)
@@ -268,8 +326,26 @@ func v1Exec(c *v1Case) {
 	case "decoder":
 		in := bytesOf(c.Input)
 		c.Valid = stdjson.Valid(in)
-		d1 := jsonv1.NewDecoder(&scriptedReader{data: in, chunks: []int{1 + r.IntN(40)}})
-		d2 := stdjson.NewDecoder(&scriptedReader{data: in, chunks: []int{1 + r.IntN(40)}})
+		var rd1, rd2 io.Reader = &scriptedReader{data: in, chunks: []int{1 + r.IntN(40)}}, &scriptedReader{data: in, chunks: []int{1 + r.IntN(40)}}
+		// a bytes.Buffer that the caller keeps writing to between the calls
+		var bb1, bb2 *bytes.Buffer
+		fed := 0
+		feed := func() {}
+		if r.IntN(4) == 0 {
+			bb1, bb2 = &bytes.Buffer{}, &bytes.Buffer{}
+			rd1, rd2 = bb1, bb2
+			feed = func() {
+				if fed < len(in) && r.IntN(2) == 0 {
+					k := min(len(in)-fed, 1+r.IntN(30))
+					bb1.Write(in[fed : fed+k])
+					bb2.Write(in[fed : fed+k])
+					fed += k
+				}
+			}
+			feed()
+		}
+		d1 := jsonv1.NewDecoder(rd1)
+		d2 := stdjson.NewDecoder(rd2)
 		if r.IntN(3) == 0 {
 			d1.UseNumber()
 			d2.UseNumber()
@@ -284,6 +360,7 @@ func v1Exec(c *v1Case) {
 		n := 1 + r.IntN(30)
 		mode := r.IntN(3)
 		for i := 0; i < n; i++ {
+			feed()
 			op := []string{"Token", "Token", "Token", "More", "Decode", "InputOffset", "DecodeStruct"}[r.IntN(7)]
 			if mode == 0 {
 				op = "Token"
@@ -344,6 +421,11 @@ func v1Exec(c *v1Case) {
 			if !st[1].([]any)[0].(bool) && st[0] != "More" {
 				failed = true
 			}
+		}
+		if bb1 != nil { // the rest of the input arrives
+			bb1.Write(in[fed:])
+			bb2.Write(in[fed:])
+			fed = len(in)
 		}
 		for i := 0; i < 40 && !failed; i++ {
 			allTok = false
@@ -454,7 +536,7 @@ func driveV1(args map[string]string) error {
 			r := newRng(seed, uint64(3100+w))
 			for i := w; i < n; i += workers {
 				c := v1Case{ID: i + 1, Prop: "C09", Seed: []uint64{r.Uint64(), r.Uint64()}}
-				c.Kind = []string{"bytes", "bytes", "marshal", "marshal", "unmarshal", "unmarshal", "decoder", "decoder", "encoder"}[r.IntN(9)]
+				c.Kind = []string{"bytes", "bytes", "marshal", "marshal", "unmarshal", "unmarshal", "decoder", "decoder", "encoder", "unmarshal-folded"}[r.IntN(10)]
 				if c.Kind == "bytes" || c.Kind == "decoder" {
 					cfg := randCfg(r)
 					cfg.bigNums = r.IntN(3) == 0
